@@ -144,7 +144,7 @@ def items(tier):
                     it = {"fn": "idem", "params": {"skel": i, "n": n, "quoted": quoted, "sf": sf},
                           "name": "idem %s n=%d quoted=%s sf=%s" % (name, n, quoted, sf), "weight": 8 ** n}
                     if n >= 2:
-                        it["defer_depth"] = 6 if n == 2 else 12
+                        it["defer_depth"] = 8 if n == 2 else 12
                     out.append(it)
     for kind in KINDS:
         ns = {"hex-case": [2], "escape-unreserved": [1]}.get(kind, list(range(0, (2 if quick else 3) + 1)))
@@ -154,6 +154,6 @@ def items(tier):
                 it = {"fn": "spelling", "params": {"kind": kind, "n": n, "quoted": quoted, "sf": sf},
                       "name": "spelling %s n=%d quoted=%s" % (kind, n, quoted), "weight": 8 ** n}
                 if n >= 2:
-                    it["defer_depth"] = 6 if n == 2 else 12
+                    it["defer_depth"] = 8 if n == 2 else 12
                 out.append(it)
     return out
